@@ -385,13 +385,16 @@ pub fn check(c: &Case) -> Outcome {
                 Ok(s) => s,
                 Err(e) => return Outcome::triv(format!("full-run:{}", e.chars().take(30).collect::<String>())),
             };
-            let bnd = match solve_with(&rhs, c, &y0b, true, Some((ml, mu)), None, &Extra { jac_storage: Some(MatrixStorage::Banded { ml, mu }), ..Default::default() }) {
+            // the declared bandwidths may be wider than the coupling (up to two more diagonals, also beyond n-1: a
+            // declaration such as Banded{1,1} for n = 1 is valid); the extra diagonals hold zeros
+            let (dl, du) = (ml + (diag[0] * 1000.0) as usize % 3, mu + (diag[1 % diag.len()] * 1000.0) as usize % 3);
+            let bnd = match solve_with(&rhs, c, &y0b, true, Some((ml, mu)), None, &Extra { jac_storage: Some(MatrixStorage::Banded { ml: dl, mu: du }), ..Default::default() }) {
                 Ok(s) => s,
-                Err(e) => return Outcome::viol(format!("{} with a Banded{{{},{}}} Jacobian: {}", name, ml, mu, e)),
+                Err(e) => return Outcome::viol(format!("{} with a Banded{{{},{}}} Jacobian: {}", name, dl, du, e)),
             };
             if !same(&full, &bnd) {
                 let k = full.t.iter().zip(&bnd.t).position(|(a, b)| a.to_bits() != b.to_bits());
-                return Outcome::viol(format!("{}: the same Jacobian in Full and Banded{{ml:{},mu:{}}} storage gives different trajectories (n={}, status {} vs {}, steps {} vs {}, first differing sample {:?})", name, ml, mu, n, status_name(full.status), status_name(bnd.status), full.naccpt, bnd.naccpt, k));
+                return Outcome::viol(format!("{}: the same Jacobian in Full and Banded{{ml:{},mu:{}}} storage gives different trajectories (n={}, status {} vs {}, steps {} vs {}, first differing sample {:?})", name, dl, du, n, status_name(full.status), status_name(bnd.status), full.naccpt, bnd.naccpt, k));
             }
             Outcome::pass(format!("{}:jac-storage", name), ml + 1 < *n || mu + 1 < *n, json!({"n": n, "ml": ml, "mu": mu, "naccpt": full.naccpt}))
         }
